@@ -52,7 +52,10 @@ RELEASES = {
 # Events that do not lift the pressure and do not close the connection from the sender's point of view:
 # a client half-close while it still does not read, and the start of a graceful shutdown (in-flight requests
 # may finish).  They are explored for the safety clauses only; no release is demanded after them.
-NOT_A_RELEASE = {("pause", "eof"), ("pause", "terminate"), ("win0", "terminate"), ("pause", "wfail")}
+# Likewise a failed write that never happens because nothing is written (window 0), and an RST_STREAM while the
+# *transport* is the bottleneck (the blocked write is below the stream layer).
+NOT_A_RELEASE = {("pause", "eof"), ("pause", "terminate"), ("win0", "terminate"), ("pause", "wfail"),
+                 ("win0", "wfail"), ("pause", "rst")}
 
 
 def scenarios(tier: str) -> List[Any]:
@@ -115,6 +118,9 @@ def build(params: Any) -> tuple:
         conn0.update(tls=True, alpn="h2", auto_ack=False)
         if pressure == "win0":
             conn0["h2_settings"] = {IWS: 0}
+        else:  # transport pressure only: take HTTP/2 flow control out of the picture
+            conn0["h2_settings"] = {IWS: 2 ** 30}
+            pre = [("cmd", 0, "winup", 0, 2 ** 30)] + pre
         if carrier == "h2":
             client = [("cmd", 0, "preface"), ("cmd", 0, "headers", SIB, h2_request_headers(b"GET", b"/sib"), True)] + pre + \
                      [("cmd", 0, "headers", BIG, h2_request_headers(b"GET", b"/big"), True)]
